@@ -783,3 +783,25 @@ pub proof fn lemma_comb_rel(a: Screen, b: Screen, c: char)
         comb_rel(a, c, b),
 {
 }
+
+// ---- define_charset (C20): the MAPS table (lazy_static HashMap<&str,[char;256]>) as an abstract lookup -------
+pub uninterp spec fn maps_lookup(code: Seq<char>) -> Option<[char; 256]>;
+#[verifier::external_body]
+pub fn maps_has(code: &str) -> (r: bool)
+    ensures r == maps_lookup(code@).is_some(),
+{ unimplemented!() }
+#[verifier::external_body]
+pub fn maps_get(code: &str) -> (r: [char; 256])
+    requires maps_lookup(code@).is_some(),
+    ensures r == maps_lookup(code@).unwrap(),
+{ unimplemented!() }
+#[verifier::external_body]
+pub fn strs_eq(a: &str, b: &str) -> (r: bool)
+    ensures r == (a@ == b@),
+{ a == b }
+pub open spec fn same_but_g0g1(a: Screen, b: Screen) -> bool {
+    a.savepoints@ == b.savepoints@ && a.columns == b.columns && a.lines == b.lines && a.dirty@ == b.dirty@
+    && a.margins == b.margins && a.buffer@ == b.buffer@ && a.mode@ == b.mode@ && a.title@ == b.title@
+    && a.icon_name@ == b.icon_name@ && a.charset == b.charset
+    && a.tabstops@ == b.tabstops@ && a.cursor == b.cursor && a.saved_columns == b.saved_columns
+}
